@@ -537,9 +537,19 @@ void* generateProgramVectorRV64(uint8_t* buf, Program& prog, ProgramConfiguratio
 					// mul x20 + dst, x20 + dst, x5
 					emit32(0x025A0A33 + (dst << 7) + (dst << 15));
 				}
-				else {
+				else if (offset <= 2047) {
 					// ld x5, offset(x18)
 					emit32(0x00093283 + (offset << 20));
+					// mul x20 + dst, x20 + dst, x5
+					emit32(0x025A0A33 + (dst << 7) + (dst << 15));
+				}
+				else {
+					// the displacement of "ld" is a 12-bit signed immediate: form the address in x5
+					imm_to_x5(static_cast<uint32_t>(offset), p);
+					// c.add x5, x18
+					emit16(0x92CA);
+					// ld x5, 0(x5)
+					emit32(0x0002B283);
 					// mul x20 + dst, x20 + dst, x5
 					emit32(0x025A0A33 + (dst << 7) + (dst << 15));
 				}
